@@ -77,7 +77,7 @@ inductive Ext (α : Type) where
 /-! ### Vectors: functions on `Fin n`, with sums as left folds in loop order -/
 
 /-- materialise a vector so that nested closures are evaluated once (identity for proofs) -/
-@[inline] def mat {n : Nat} (f : Fin n → α) : Fin n → α :=
+@[macro_inline] def mat {n : Nat} (f : Fin n → α) : Fin n → α :=
   let a := Array.ofFn f
   fun i => a[i.1]'(by simp [a])
 
